@@ -491,6 +491,9 @@ def build_sim(scn, algo=None, on_call=None, on_return=None, net_cls=MonNet, moni
         events.append(RecomputeEvent(t))
         if scn.get("rc_prec") is not None:
             events[-1].precedence = scn["rc_prec"]  # a user-chosen precedence (public attribute of the event)
+    if scn.get("rc_first"):
+        # the caller lists its recompute requests BEFORE the plug-ins (listing order is incidental)
+        events = [e for e in events if isinstance(e, RecomputeEvent)] + [e for e in events if not isinstance(e, RecomputeEvent)]
     inner = algo if algo is not None else make_algorithm(scn["sched"])
     rec = Recorder(inner, on_call, on_return, peek=peek)
     if "k" in scn:
